@@ -360,6 +360,17 @@ def fam_errbase(tier: str, rng: random.Random) -> Iterator[dict]:
                         yield p
 
 
+def fam_errfalsy(tier: str, rng: random.Random) -> Iterator[dict]:
+    """The configured error objects are FALSY (exception types defining __bool__ / __len__): a violation is raised all
+    the same - the gate must test for the presence of an error, not for its truth value."""
+    for p in fam_errbase(tier, rng):
+        q = json_copy(p)
+        q.pop("errbase", None)
+        q["errfalsy"] = True
+        q["tag"] = p["tag"].replace("errbase", "errfalsy")
+        yield q
+
+
 def fam_order_seq(tier: str, rng: random.Random) -> Iterator[dict]:
     """C16: sequences of calls with different arguments on a method with several precondition groups: which
     conditions are evaluated, in which order, and whose error is raised must not depend on the calls made before."""
